@@ -960,6 +960,7 @@ func (n *node) Kill(pid gen.PID) error {
 	}
 
 	p := value.(*process)
+	lib.VerifPoint("proc.kill.zombie", pid)
 	state := atomic.SwapInt32(&p.state, int32(gen.ProcessStateZombee))
 	switch state {
 	case int32(gen.ProcessStateWaitResponse), int32(gen.ProcessStateRunning):
@@ -970,6 +971,7 @@ func (n *node) Kill(pid gen.PID) error {
 		return nil
 	}
 
+	lib.VerifPoint("proc.kill.term", pid)
 	old := atomic.SwapInt32(&p.state, int32(gen.ProcessStateTerminated))
 	if old == int32(gen.ProcessStateTerminated) {
 		return nil
@@ -1748,6 +1750,7 @@ func (n *node) spawn(factory gen.ProcessFactory, options gen.ProcessOptionsExtra
 
 func (n *node) unregisterProcess(p *process, reason error) {
 	n.processes.Delete(p.pid)
+	lib.VerifPoint("proc.unreg.deleted", p.pid)
 	n.RouteTerminatePID(p.pid, reason)
 
 	if p.application != system.Name {
@@ -1759,17 +1762,20 @@ func (n *node) unregisterProcess(p *process, reason error) {
 	if p.registered.Load() {
 		n.names.Delete(p.name)
 		pname := gen.ProcessID{Name: p.name, Node: n.name}
+		lib.VerifPoint("proc.unreg.name", pname)
 		n.RouteTerminateProcessID(pname, reason)
 	}
 
 	for _, a := range p.aliases {
 		n.aliases.Delete(a)
+		lib.VerifPoint("proc.unreg.alias", a)
 		n.RouteTerminateAlias(a, reason)
 	}
 
 	p.events.Range(func(k, _ any) bool {
 		ev := gen.Event{Name: k.(gen.Atom), Node: p.node.name}
 		n.events.Delete(ev)
+		lib.VerifPoint("proc.unreg.event", ev)
 		n.RouteTerminateEvent(ev, reason)
 		return true
 	})
